@@ -318,6 +318,17 @@ def handle (line : String) : String :=
             | none => "UNSUPPORTED")
         | .error c => "ERR " ++ c)
     | none => "bad-arg"
+  | ["rt", h] =>
+    -- the round trip inside the model: parser mirror, renderer model, parser mirror again
+    match unhexText h with
+    | some cs => (match Parse.parseProgram cs with
+        | .ok sx => (match Render.library sx with
+            | some t => (match Parse.parseProgram t.toList with
+                | .ok sx2 => if sx2.render == sx.render then "SAME" else "DIFF"
+                | .error c => "REPARSE " ++ c)
+            | none => "UNSUPPORTED")
+        | .error c => "ERR " ++ c)
+    | none => "bad-arg"
   | ["addr", h] =>
     match unhexText h with
     | some cs =>
